@@ -1421,7 +1421,17 @@ func rulesParamRelevance(cx *Ctx, prop string, filter func(name string) bool) []
 				continue
 			}
 			if enteredOnlyWhenEmpty(b) {
-				continue // `if len(list) == 0 { return f(rest) }`: what the zero-trip loop would have returned
+				// `if len(list) == 0 { return f(rest) }`: what the zero-trip loop would have returned — it must still be
+				// computed from every operand that is used outside the loops (the accumulator's starting value, …)
+				for _, p := range operands {
+					if _, isList := p.Type().Underlying().(*types.Slice); isList {
+						continue
+					}
+					if usedOutsideLoops(fi0(fn), p, b) && !dependsOn(ret.Results[0], p, map[ssa.Value]bool{}) {
+						bad1 = fmt.Sprintf("the value returned for an empty list at %s does not depend on operand %s, which the general path uses outside its loop", P.Pos(ret.Pos()), p.Name())
+					}
+				}
+				continue
 			}
 			nFull++
 			for _, p := range operands {
@@ -1488,4 +1498,98 @@ func enteredOnlyWhenEmpty(b *ssa.BasicBlock) bool {
 		}
 	}
 	return false
+}
+
+func fi0(fn *ssa.Function) *FnInfo { return GetFnInfo(fn) }
+
+// usedOutsideLoops: operand p (or a local copy of it) is used by an instruction that is in no loop and not in block
+// `except`
+func usedOutsideLoops(fi *FnInfo, p *ssa.Parameter, except *ssa.BasicBlock) bool {
+	seen := map[ssa.Value]bool{}
+	var walk func(v ssa.Value, d int) bool
+	walk = func(v ssa.Value, d int) bool {
+		if d > 4 || seen[v] || v.Referrers() == nil {
+			return false
+		}
+		seen[v] = true
+		for _, r := range *v.Referrers() {
+			if _, dbg := r.(*ssa.DebugRef); dbg {
+				continue
+			}
+			b := r.Block()
+			if b == nil || b == except {
+				continue
+			}
+			if phi, ok := r.(*ssa.Phi); ok {
+				// the starting value of a loop-carried accumulator enters on the edge from outside the loop
+				if l := fi.HeaderOf[b]; l != nil {
+					for i, pb := range b.Preds {
+						if phi.Edges[i] == v && !l.Blocks[pb] {
+							return true
+						}
+					}
+				}
+			}
+			if st, ok := r.(*ssa.Store); ok && st.Val == v {
+				// a spill / local copy: what reads the copy counts
+				base := st.Addr
+				for {
+					if ia, ok := base.(*ssa.IndexAddr); ok {
+						base = ia.X
+						continue
+					}
+					if fa, ok := base.(*ssa.FieldAddr); ok {
+						base = fa.X
+						continue
+					}
+					break
+				}
+				if al, ok := base.(*ssa.Alloc); ok {
+					if al.Comment == p.Name() {
+						// the parameter's own spill slot: follow its loads
+						if walkAllocLoads(al, walk, d) {
+							return true
+						}
+						continue
+					}
+					if len(fi.LoopsOf[b.Index]) == 0 {
+						return true // copied into another local outside any loop (acc := startingAcc)
+					}
+					continue
+				}
+			}
+			if len(fi.LoopsOf[b.Index]) == 0 {
+				return true
+			}
+		}
+		return false
+	}
+	return walk(p, 0)
+}
+
+func walkAllocLoads(al *ssa.Alloc, walk func(ssa.Value, int) bool, d int) bool {
+	var rec func(ptr ssa.Value) bool
+	rec = func(ptr ssa.Value) bool {
+		if ptr.Referrers() == nil {
+			return false
+		}
+		for _, r := range *ptr.Referrers() {
+			switch u := r.(type) {
+			case *ssa.UnOp:
+				if u.Op == token.MUL && walk(u, d+1) {
+					return true
+				}
+			case *ssa.IndexAddr:
+				if rec(u) {
+					return true
+				}
+			case *ssa.FieldAddr:
+				if rec(u) {
+					return true
+				}
+			}
+		}
+		return false
+	}
+	return rec(al)
 }
